@@ -16,6 +16,7 @@ with directives:
   //@   requires: / ensures: / decreases: / recommends:     followed by //@+ continuation lines
   //@   result: NAME                    name of the result binder (default r)
   //@   loop N:                         clauses inserted after the N-th loop header (1-based)
+  //@   at_start:                       proof text inserted right after the body's opening brace
   //@   before `ANCHOR`:                proof text inserted before the unique occurrence of ANCHOR
   //@   after `ANCHOR`:                 ... after the end of the line containing ANCHOR
   //@   rewrite `OLD` => `NEW` [xK]     literal T6 rewrite, must match exactly K (default 1) times
@@ -59,6 +60,7 @@ class Extract:
         self.result = "r"
         self.clauses = {}  # requires/ensures/decreases/recommends -> text
         self.loops = {}  # n -> text
+        self.at_start = []  # lines inserted right after the opening brace of the body
         self.before = []  # (anchor, text)
         self.after = []
         self.rewrites = []  # (old, new, count)
@@ -94,6 +96,8 @@ def _parse_unit(text):
                         ex.clauses[key] = ex.clauses.get(key, "") + mc.group(1) + "\n"
                     elif kind == "loop":
                         ex.loops[key] = ex.loops.get(key, "") + mc.group(1) + "\n"
+                    elif kind == "at_start":
+                        ex.at_start.append(mc.group(1))
                     elif kind == "before":
                         ex.before[-1][1].append(mc.group(1))
                     elif kind == "after":
@@ -116,6 +120,8 @@ def _parse_unit(text):
                 elif k == "loop":
                     n = int(rest.rstrip(":").strip())
                     cur = ("loop", n)
+                elif k == "at_start":
+                    cur = ("at_start", None)
                 elif k in ("before", "after"):
                     ma = re.match(r"`(.*)`\s*:?\s*$", rest)
                     if not ma:
@@ -327,6 +333,9 @@ def transform(ex, src):
         le = body.find("\n", idx)
         le = len(body) if le < 0 else le + 1
         inserts.append((le, "".join("        " + l + "\n" for l in lines)))
+    if ex.at_start:
+        inserts.append((1, "\n" + "".join("        " + l + "\n" for l in ex.at_start)))
+        record["transformations"].append("T4 proof block at function start")
     if ex.before or ex.after:
         record["transformations"].append("T4 proof blocks: %d" % (len(ex.before) + len(ex.after)))
     for idx, txt in sorted(inserts, key=lambda x: -x[0]):
